@@ -30,7 +30,22 @@ class ExprMixin:
             if v.typ == ty.ANY:
                 f = z3.Function('truthy', I, B)
                 return f(v.term)
+            if isinstance(v.typ, ty.TRef) and v.typ.cls in self.prog.classes:
+                # Python truthiness of an object: __bool__, else __len__ != 0, else True
+                for meth in ('__bool__', '__len__'):
+                    fi = self.prog.find_method(v.typ.cls, meth)
+                    if fi is not None:
+                        def call(fi=fi, meth=meth):
+                            r = self.call_function(fi, [VRef(v.term, self.non_null(v.typ), v.st)], {})
+                            return VBool(self.truth(r) if meth == '__bool__' else self.arith_term(r) != 0)
+                        t = self.eval_pure(call).term
+                        return z3.And(v.term != 0, t) if v.nullable else t
             return v.term != 0
+        if isinstance(v, VFunc) and v.kind == 'class' and v.name in self.prog.classes and self.prog.metaclass_of(v.name):
+            fi = self.prog.find_method(self.prog.metaclass_of(v.name), '__len__')
+            if fi is not None:
+                r = self.eval_pure(lambda: self.call_function(fi, [self.class_ref(v)], {}))
+                return self.arith_term(r) != 0
         if isinstance(v, (VFunc, VCls)):
             return z3.BoolVal(True)
         if isinstance(v, VTuple):
@@ -559,6 +574,11 @@ class ExprMixin:
             return VRef(ite([self.coerce(v, ty.ANY) for v in vals]), ty.ANY)
         raise Unsupported('merge of ' + ','.join(type(v).__name__ for v in vals))
 
+    def non_null(self, t):
+        if isinstance(t, ty.TRef) and t.nullable:
+            return ty.TRef(t.cls, False)
+        return t
+
     def nullable_of(self, t):
         if isinstance(t, ty.TRef):
             return ty.TRef(t.cls, True)
@@ -593,7 +613,8 @@ class ExprMixin:
                     out = ('raise', ex)
                 except PathEnd:
                     out = None
-                cond = z3.And(self.pc[n1:]) if len(self.pc) > n1 else z3.BoolVal(True)
+                decs = [t for t in self.pc[n1:] if t.get_id() in self.dec_ids]
+                cond = z3.And(decs) if decs else z3.BoolVal(True)
                 if out is not None and any(self.S.h.get(k) is not S0.h.get(k) and k in S0.h for k in self.S.h) \
                         and out[0] == 'val' and self.heap_differs(S0, self.S):
                     raise Unsupported('side effect inside a pure sub-expression')
